@@ -109,9 +109,12 @@ Proof.
     + discriminate.
     + (* bare: excluded *) cbn in U. destruct h; try discriminate. cbn in HBx. rewrite U in HBx. discriminate.
     + specialize (Hin h v rest eq_refl). destruct (comp v) eqn:Cv; cbn in Hin.
-      * destruct (collect_with comp wk dd r) as [es ks|bad]; [|exact IHr]. destruct IHr as [I1 I2].
-        destruct dd; [split; [constructor; [exact I | constructor; [exact Hin | assumption]] | assumption]|].
-        destruct wk; [split; try assumption; constructor; [exact Hin | assumption] | split; [exact I | discriminate]].
+      * destruct dd.
+        { destruct (collect_with comp wk true r) as [es ks|bad]; [|exact IHr]. destruct IHr as [I1 I2].
+          split; [constructor; [exact I | constructor; [exact Hin | assumption]] | assumption]. }
+        destruct wk; [|split; [exact I | discriminate]].
+        destruct (collect_with comp true false r) as [es ks|bad]; [|exact IHr]. destruct IHr as [I1 I2].
+        split; try assumption. constructor; [exact Hin | assumption].
       * split; [exact I | discriminate].
       * destruct Hin.
       * split; [exact I | discriminate].
@@ -145,10 +148,12 @@ Proof.
   destruct (is_unpack s_unpack_mapping x) eqn:U.
   - destruct x as [| | | |lx| | | |]; try discriminate. destruct lx as [|h [|v rest]]; try (intros e; discriminate).
     specialize (Hin h v rest eq_refl). destruct (comp v) eqn:Cv; try (intros e0; discriminate).
-    destruct (collect_with comp wk dd r) as [es ks|bad]; [|exact IHr]. destruct IHr as [I1 I2].
-    pose proof (Hin e eq_refl) as He.
-    destruct dd; [split; [constructor; [exact I | constructor; [exact He | assumption]] | assumption]|].
-    destruct wk; [split; try assumption; constructor; [exact He | assumption] | intros e0; discriminate].
+    pose proof (Hin e eq_refl) as He. destruct dd.
+    { destruct (collect_with comp wk true r) as [es ks|bad]; [|exact IHr]. destruct IHr as [I1 I2].
+      split; [constructor; [exact I | constructor; [exact He | assumption]] | assumption]. }
+    destruct wk; [|intros e0; discriminate].
+    destruct (collect_with comp true false r) as [es ks|bad]; [|exact IHr]. destruct IHr as [I1 I2].
+    split; try assumption. constructor; [exact He | assumption].
   - destruct x as [s|k|z|s|lx|lx|lx|lx|lx], wk; cbv beta iota;
       try (destruct (comp _) eqn:Cx; try (intros e0; discriminate);
            destruct (collect_with comp _ dd r) as [es ks|bad]; [destruct IHr as [I1 I2]; split; [constructor; [exact (Hx _ eq_refl) | assumption] | assumption] | exact IHr]).
@@ -190,7 +195,7 @@ Proof.
   - cbn [Compile.collect_with] in E. fold (collect_with comp false false) in E.
     destruct (is_unpack s_unpack_mapping x) eqn:U.
     + destruct x as [| | | |lx| | | |]; try discriminate. destruct lx as [|h [|v rest]]; try discriminate.
-      destruct (comp v); try discriminate. destruct (collect_with comp false false r); discriminate.
+      destruct (comp v); discriminate.
     + assert (G : match comp x with
                   | COk e => match collect_with comp false false r with Coll es0 ks0 => Coll (Some e :: es0) ks0 | CollErr r0 => CollErr r0 end
                   | bad => CollErr bad end = Coll es ks) by (destruct x; exact E).
